@@ -516,6 +516,7 @@ CORPUS = {
             b'<a/><b/>', b'<a xmlns:x=""/>', b'<h xmlns="tns"/>', b'<h/>', b'<h xmlns="other"/>', b'<H xmlns="tns"/>',
             b'<h xmlns="tns">text<zz/></h>', b'<f xmlns="tns"><o><i x="1">5</i><inner s="" a="x"><a>1</a></inner></o></f>',
             b'<f xmlns="tns"><o at="abc"/></f>', b'<f xmlns="tns"><o><at>5</at></o></f>', b'<f xmlns="tns"><o><at>x</at></o></f>',
+            b'<f xmlns="tns"><o at="5"><at>x</at><m>1</m></o></f>', b'<f xmlns="tns"><o at="5"><at>6</at><at/><m>1</m></o></f>',
             b'<f xmlns="tns" xmlns:xsi="http://www.w3.org/2001/XMLSchema-instance" xmlns:t="tns" xsi:type="t:Inner"><o/></f>',
             b'<g xmlns="tns" xmlns:xsi="http://www.w3.org/2001/XMLSchema-instance" xmlns:t="tns" xsi:type="t:XmlAttribute">5</g>',
             b'<g xmlns="tns" xmlns:xsi="http://www.w3.org/2001/XMLSchema-instance" xmlns:t="tns"><i xsi:type="t:Outer"><m>1</m></i></g>',
